@@ -262,6 +262,9 @@ func init() {
 				}
 				c20Run(c, ka)
 				c20Run(c, c20Case{Kind: "server-apply", PB: c20PB(&pb.ServerConfig{}), PB2: c20PB(sc), JSON: jsonFile})
+				// a patch that passes the patch validation but leaves an incomplete configuration (no port binding /
+				// no profile): the full validation must reject it and nothing may be written
+				c20Run(c, c20Case{Kind: "server-apply", PB: c20PB(&pb.ServerConfig{}), PB2: c20PB(patch), JSON: jsonFile})
 				cc := c20ClientConfig(c, 0.6, true)
 				c20Run(c, c20Case{Kind: "client-store", PB: c20PB(cc), JSON: jsonFile})
 				cpatch := c20ClientConfig(c, 0.3, false)
@@ -270,6 +273,7 @@ func init() {
 				}
 				c20Run(c, c20Case{Kind: "client-apply", PB: c20PB(cc), PB2: c20PB(cpatch), JSON: jsonFile})
 				c20Run(c, c20Case{Kind: "client-apply", PB: c20PB(&pb.ClientConfig{}), PB2: c20PB(cc), JSON: jsonFile})
+				c20Run(c, c20Case{Kind: "client-apply", PB: c20PB(&pb.ClientConfig{}), PB2: c20PB(cpatch), JSON: jsonFile})
 				if i%3 == 0 {
 					c20Run(c, c20Case{Kind: "client-apply-url", PB: c20PB(cc), PB2: c20PB(cpatch), JSON: jsonFile})
 				}
